@@ -152,7 +152,10 @@ pub fn run(case: &J) -> J {
                 }
                 count += 1;
                 let loud = if vrl_kind {
-                    vrl_ast(&t) != json!("none") || pt(&t) != json!("err") || vrl_compiled(&t) == json!("panic")
+                    // compile() parses first and returns the parse error: it is only worth calling (to see a
+                    // compiler panic) when the text parses
+                    let parses = matches!(catch_unwind(AssertUnwindSafe(|| vrl::parser::parse(&t))), Ok(Ok(_)) | Err(_));
+                    vrl_ast(&t) != json!("none") || pt(&t) != json!("err") || (parses && vrl_compiled(&t) == json!("panic"))
                 } else {
                     pv(&t) != json!("err") || pt(&t) != json!("err")
                 };
